@@ -27,7 +27,7 @@ def _map(n, f):
 def to_function_form(a, names=OPERATOR_NAMES):
     def f(n):
         if isinstance(n, ast.Call) and isinstance(n.func, ast.Attribute) and n.func.attr in names:
-            return ast.Call(func=N(n.func.attr), args=[n.func.value] + list(n.args), keywords=[])
+            return ast.Call(func=N(n.func.attr), args=[n.func.value] + list(n.args), keywords=list(n.keywords))
         return n
 
     return _map(a, f)
